@@ -104,6 +104,36 @@ macro_rules! lossy_probe {
             for n in &nodes {
                 g.insert(n.clone());
             }
+            // node operations resolve neighbours by Eq of the key, never by its text: Lk(1, 2) prints like Lk(0, 2)
+            {
+                let p = Node::<Lk, i64, u64>::new(Lk(0, 1), 0);
+                let q = Node::<Lk, i64, u64>::new(Lk(0, 2), 0);
+                let r = Node::<Lk, i64, u64>::new(Lk(1, 2), 0);
+                p.connect(&q, 1);
+                if p.is_connected(r.key()) || !p.is_connected(q.key()) {
+                    return "is_connected confuses keys that print alike".to_string();
+                }
+                if p.try_connect(&r, 2).is_err() {
+                    return "try_connect refused a node whose key only PRINTS like a neighbour's".to_string();
+                }
+                if p.try_connect(&q, 3).is_ok() {
+                    return "try_connect accepted a second edge to the same neighbour".to_string();
+                }
+                match p.disconnect(r.key()) {
+                    Ok(2) => {}
+                    other => return format!("disconnect by key removed {:?} instead of the edge to the named key", other.ok()),
+                }
+                if !p.is_connected(q.key()) || p.is_connected(r.key()) {
+                    return "disconnect removed the edge to a look-alike key".to_string();
+                }
+                if p.bfs().target(r.key()).search().is_some() || p.dfs().target(q.key()).search_path().is_none() {
+                    return "a targeted search confuses keys that print alike".to_string();
+                }
+                q.isolate();
+                if p.is_connected(q.key()) {
+                    return "isolate left the edge".to_string();
+                }
+            }
             let show = |g: &Graph<Lk, i64, u64>| -> Vec<String> {
                 let mut v: Vec<String> = keys
                     .iter()
